@@ -62,6 +62,10 @@ ASSUMPTIONS = [
 _FIXED = None
 
 
+def desc_of(case):
+    return f"{case['kind']} {case['topo']} size={case['size']} method={case['method']}"
+
+
 def evidence_extra(counters, keys):
     return {"clamp_steps_observed": counters.get("steps", 0), "rollbacks_observed": counters.get("path:rollback", 0),
             "skips_observed_injected": counters.get("path:skip-injected", 0),
@@ -100,6 +104,10 @@ def fixed_cases(tier):
         for i in range(3):
             out.append(M.gen(rng, {"kind": "mesh", "ctypes": ["free", "line", "plane"], "ltype": None, "calls": 2,
                                    "method": M.METHODS[i], "failpoint": False, "between_calls": "mesh.backport"}))
+        # an L-shaped sketch through auto_optimize(): the re-entrant corner is on the boundary and gets no clamp
+        for i in range(3):
+            out.append(M.gen(rng, {"kind": "sketch", "ctypes": [], "ltype": None, "auto": True, "shape": "lshape",
+                                   "method": M.METHODS[i], "failpoint": False}))
         # a 0.1 mm model in metres: vertex spacing far below sqrt(TOL)
         for i in range(4):
             out.append(M.gen(rng, {"kind": ["mesh", "sketch"][i % 2], "ctypes": ["free", "plane", "line"], "ltype": None,
@@ -443,9 +451,16 @@ def run_case(ctx, case):
                     clamp_of[j.index] = {"v": j.index, "type": "plane", "point": [float(x) for x in before[j.index]],
                                          "normal": [float(x) for x in normal], "auto": True}
             interior = set(range(nv)) - M.quad_boundary(case["cells"])
-            ctx.count("auto-clamped-set==interior" if auto_vs == interior - set(c["v"] for c in case["clamps"]) else
-                      "auto-clamped-set!=interior")
+            want_auto = interior - set(c["v"] for c in case["clamps"])
+            ctx.count("auto-clamped-set==interior" if auto_vs == want_auto else "auto-clamped-set!=interior")
             ctx.count("judged:auto-clamp", len(auto_vs))
+            if auto_vs != want_auto:
+                # auto_optimize() documents: a PlaneClamp on all non-boundary points; a boundary point the user gave no clamp
+                # is a vertex without a clamp (it must not move), an interior one without is not optimised at all
+                ctx.violation("auto_optimize:clamps-not-on-exactly-the-interior-points",
+                              f"{desc_of(case)}: auto_optimize() clamped points {sorted(auto_vs)}; the points not on the boundary of the quad "
+                              f"map (minus the user's clamps) are {sorted(want_auto)}")
+                return False
         ctx.count(f"method:{case['method']}")
         ctx.count(f"kind:{kind}")
         after = current()
